@@ -207,9 +207,7 @@ func BuildLockWorld(p *Program) *LockWorld {
 					switch {
 					case callee != nil && inScope[callee] && len(callee.Blocks) > 0:
 						pi := i
-						if onlyCalled(callee, pi) {
-							inner, sites, _ := FuncParamCallLocks(callee, pi)
-							_ = sites
+						if inner, ok := paramCallLocksDeep(callee, pi, inScope, 0); ok {
 							s := held.clone()
 							for k, v := range TranslateToCaller(call, callee, inner) {
 								if s[k] < v {
@@ -330,6 +328,64 @@ func closureFn(v ssa.Value) *ssa.Function {
 	return nil
 }
 
+// paramCallLocksDeep returns, for the function-valued parameter idx of callee, the locks (named relative to callee) held
+// at every place the parameter is invoked: directly in callee, or in a helper callee hands it on to (readLocked(mu, get)
+// calling get() between mu.RLock and mu.RUnlock). ok is false when the parameter is used in any other way (stored,
+// started as a goroutine, deferred, handed to a function outside the analysed program) or is never invoked.
+func paramCallLocksDeep(callee *ssa.Function, idx int, inScope map[*ssa.Function]bool, depth int) (LockSet, bool) {
+	if idx >= len(callee.Params) || depth > 4 || len(callee.Blocks) == 0 {
+		return nil, false
+	}
+	prm := callee.Params[idx]
+	li := Locks(callee, nil)
+	var res LockSet
+	n := 0
+	join := func(s LockSet) {
+		n++
+		if res == nil {
+			res = s.clone()
+		} else {
+			res = meet(res, s)
+		}
+	}
+	for _, u := range Referrers(prm) {
+		switch x := u.(type) {
+		case *ssa.DebugRef:
+		case *ssa.Call:
+			if x.Call.Value == prm {
+				join(li.At(x))
+				continue
+			}
+			g := x.Call.StaticCallee()
+			if g == nil || !inScope[g] || g == callee {
+				return nil, false
+			}
+			for j, a := range x.Call.Args {
+				if a != prm {
+					continue
+				}
+				inner, ok := paramCallLocksDeep(g, j, inScope, depth+1)
+				if !ok {
+					return nil, false
+				}
+				s := li.At(x).clone()
+				for k, v := range TranslateToCaller(x, g, inner) {
+					if s[k] < v {
+						s[k] = v
+					}
+				}
+				join(s)
+			}
+		default:
+			return nil, false
+		}
+	}
+	if n == 0 {
+		return nil, false
+	}
+	return res, true
+}
+
 // onlyCalled reports whether parameter idx of callee is used only as the
 // target of ordinary (synchronous) calls.
 func onlyCalled(callee *ssa.Function, idx int) bool {
@@ -396,6 +452,7 @@ type FieldAccess struct {
 	Write    bool
 	Fresh    bool // base object allocated in this function (constructor)
 	Kind     string
+	Base     string // access path of the object the field belongs to ("w", "c.config"), "" when it has none
 }
 
 // mutexFieldOf returns the name of the (first) mutex field of struct type t.
@@ -465,7 +522,13 @@ func isFresh(v ssa.Value) bool {
 
 // FieldAccesses lists every access in fn to a non-mutex field of a struct
 // that has a mutex field.
-func FieldAccesses(fn *ssa.Function) []FieldAccess {
+func FieldAccesses(fn *ssa.Function) []FieldAccess { return fieldAccesses(fn, false) }
+
+// LockFreeFieldAccesses lists every access in fn to a field of a named struct of the module that has NO mutex field
+// (LockPath is empty): such a struct is safe to share only while nobody writes it.
+func LockFreeFieldAccesses(fn *ssa.Function) []FieldAccess { return fieldAccesses(fn, true) }
+
+func fieldAccesses(fn *ssa.Function, lockFree bool) []FieldAccess {
 	var out []FieldAccess
 	Instrs(fn, func(in ssa.Instruction) {
 		fa, ok := in.(*ssa.FieldAddr)
@@ -473,7 +536,10 @@ func FieldAccesses(fn *ssa.Function) []FieldAccess {
 			return
 		}
 		mf, has := mutexFieldOf(fa.X.Type())
-		if !has {
+		if has == lockFree {
+			return
+		}
+		if lockFree && !strings.HasPrefix(NamedTypeName(fa.X.Type()), ModulePath) {
 			return
 		}
 		fname := fieldName(fa.X.Type(), fa.Field)
@@ -490,6 +556,12 @@ func FieldAccesses(fn *ssa.Function) []FieldAccess {
 			label = "struct@" + AccessPathType(fa.X)
 		}
 		fresh := isFresh(fa.X)
+		n0 := len(out)
+		defer func() {
+			for i := n0; i < len(out); i++ {
+				out[i].Base = base
+			}
+		}()
 		// classify each use of the field address
 		for _, u := range Referrers(fa) {
 			switch x := u.(type) {
@@ -586,3 +658,6 @@ func CallbackBody(v ssa.Value) (fn *ssa.Function, old, new *ssa.Parameter) {
 	}
 	return f, nil, nil
 }
+
+// IsFresh reports whether v is (derived by field addressing from) an allocation made in the same function.
+func IsFresh(v ssa.Value) bool { return isFresh(v) }
